@@ -29,8 +29,22 @@ package vm
 
 // Frames of the code-loading helpers (assumed; they do not touch the os field: see the scan above).
 //@ func (*VirtualMachine).loadCode
-//@ trusted
+//@ trusted except C14.load.own C14.load.cached
+//@ props C14
 //@ modcomps H_vm_VirtualMachine_loadedCode H_vm_code_ H_sync_ M E_ -MD_string_Pobject_Module -MV_string_Pobject_Module
+// C14: the code of a function is bound to the globals array of ITS OWN root code (the module or script it was compiled
+// in), whoever calls it first: a function of an imported module reads and writes that module's variables, not the
+// same-numbered slots of the importing script (seed C14e bound a callee to the caller's globals on its first call).
+//@ assume[recv.nonnil] vm != nil && cc != nil
+//@ ensures[C14.load.cached] old(haskey(vm.loadedCode, cc)) ==> result == old(vm.loadedCode[cc])
+//@ ensures[C14.load.own] !old(haskey(vm.loadedCode, cc)) && uf("code.root", *compiler.Code, cc) != cc && old(vm.loadedCode[uf("code.root", *compiler.Code, cc)]) != nil ==> result != nil && same(result.Globals, old(vm.loadedCode[uf("code.root", *compiler.Code, cc)].Globals))
+//@ ensures result != nil && haskey(vm.loadedCode, cc) && vm.loadedCode[cc] == result
+
+//@ func loadChildCode
+//@ props C14
+//@ requires root != nil && cc != nil
+//@ havoc wrapCode
+//@ ensures[C14.child.globals] result != nil && same(result.Globals, root.Globals)
 //@ func (*VirtualMachine).activateCode
 //@ trusted
 //@ modcomps H_vm_VirtualMachine_fp H_vm_VirtualMachine_ip H_vm_VirtualMachine_activeFrame H_vm_VirtualMachine_activeCode H_vm_VirtualMachine_frames H_vm_frame_ E_
